@@ -93,7 +93,9 @@ func (e *vJoinEnv) checkStream() {
 func VerifC03_join_untimed() {
 	e := vJoinSetup(false)
 	JS := vParam("JS", 2)
-	e.d.main()
+	vTermWatch(e.d.output)
+	vRunSpawned(0) // the goroutine New started: main
+	vRunLeftoverSpawned()
 	e.checkStream()
 	for k := 0; k+1 < len(e.lens); k++ {
 		vAssert(e.lens[k] == JS, "C09: without a timeout every slice except the last has exactly JoinSize elements")
@@ -106,7 +108,9 @@ func VerifC03_join_untimed() {
 func VerifC03_join_timed() {
 	e := vJoinSetup(true)
 	JS := vParam("JS", 2)
-	e.d.main()
+	vTermWatch(e.d.output)
+	vRunSpawned(0) // the goroutine New started: main
+	vRunLeftoverSpawned()
 	e.checkStream()
 	T := int64(e.d.opts.Timeout)
 	// a non-maximal slice that is not the final one comes no earlier than Timeout after the previous delivery / creation
